@@ -288,6 +288,20 @@ class Analysis:
                 for tg, v in zip(d.targets[0].elts, d.value.elts):
                     if isinstance(tg, ast.Name) and tg.id == name:
                         return v
+            # `a, b = m.group("x", "y")`: a match object's multi-group call is the tuple of the single-group calls
+            if isinstance(d, ast.Assign) and len(d.targets) == 1 and isinstance(d.targets[0], (ast.Tuple, ast.List)) and isinstance(d.value, ast.Call) \
+                    and isinstance(d.value.func, ast.Attribute) and d.value.func.attr == "group" and not d.value.keywords \
+                    and len(d.value.args) == len(d.targets[0].elts) >= 2 and all(isinstance(a, ast.Constant) for a in d.value.args):
+                for tg, a in zip(d.targets[0].elts, d.value.args):
+                    if isinstance(tg, ast.Name) and tg.id == name:
+                        one = ast.Call(func=copy.deepcopy(d.value.func), args=[copy.deepcopy(a)], keywords=[])
+                        ast.copy_location(one, d.value)
+                        ast.fix_missing_locations(one)
+                        for sub_ in ast.walk(one):
+                            if hasattr(d.value, "_module") and not hasattr(sub_, "_module"):
+                                sub_._module = d.value._module  # type: ignore[attr-defined]
+                                sub_._func = getattr(d.value, "_func", None)  # type: ignore[attr-defined]
+                        return one
         return None
 
     def preceding_def(self, stmt: ast.stmt, name: str) -> Optional[ast.expr]:
@@ -977,6 +991,45 @@ class _Rename(ast.NodeTransformer):
         if n.id in self.ren:
             return ast.copy_location(ast.Name(id=self.ren[n.id], ctx=n.ctx), n)
         return n
+
+
+def fuse_comprehensions(e: ast.expr) -> ast.expr:
+    """`[E(t) for t in [F(u) for u in IT] if C(t)]` is `[E(F(u)) for u in IT if C(F(u))]`: a comprehension over a
+    comprehension (compute all, then filter / project) fused into one, when the outer target pattern matches the inner
+    element (a name, or a tuple of names against a tuple display)."""
+    if not isinstance(e, (ast.ListComp, ast.GeneratorExp)) or len(e.generators) != 1:
+        return e
+    og = e.generators[0]
+    inner = og.iter
+    if not isinstance(inner, (ast.ListComp, ast.GeneratorExp)) or len(inner.generators) != 1 or og.is_async or inner.generators[0].is_async:
+        return e
+    inner = fuse_comprehensions(inner)
+    ig = inner.generators[0]
+    mapping: Dict[str, ast.expr] = {}
+    if isinstance(og.target, ast.Name):
+        mapping[og.target.id] = inner.elt
+    elif isinstance(og.target, ast.Tuple) and isinstance(inner.elt, ast.Tuple) and len(og.target.elts) == len(inner.elt.elts) \
+            and all(isinstance(t, ast.Name) for t in og.target.elts):
+        for t, v in zip(og.target.elts, inner.elt.elts):
+            mapping[t.id] = v
+    else:
+        return e
+    inner_names = {n.id for n in ast.walk(ig.target) if isinstance(n, ast.Name)}
+
+    class S(ast.NodeTransformer):
+        def visit_Name(self, n):
+            if isinstance(n.ctx, ast.Load) and n.id in mapping:
+                return copy.deepcopy(mapping[n.id])
+            return n
+    # an outer name that is also an inner variable and maps to exactly that variable is fine; other captures are not
+    for k, v in mapping.items():
+        if k in inner_names and not (isinstance(v, ast.Name) and v.id == k):
+            return e
+    new_elt = S().visit(copy.deepcopy(e.elt))
+    new_ifs = [copy.deepcopy(c) for c in ig.ifs] + [S().visit(copy.deepcopy(c)) for c in og.ifs]
+    gen = ast.comprehension(target=copy.deepcopy(ig.target), iter=copy.deepcopy(ig.iter), ifs=new_ifs, is_async=0)
+    out = type(e)(elt=new_elt, generators=[gen])
+    return ast.fix_missing_locations(ast.copy_location(out, e))
 
 
 def pathparts(e: ast.expr) -> List[str]:
